@@ -73,6 +73,25 @@ def isXmlChar (c : Nat) : Bool :=
   c == 9 || c == 10 || c == 13 || (32 ≤ c && c ≤ 0xD7FF) || (0xE000 ≤ c && c ≤ 0xFFFD) ||
   (0x10000 ≤ c && c ≤ 0x10FFFF)
 
+/-! ### what `open(path, 'w', encoding='utf-8').write(s)` puts on disk -/
+
+/-- UTF-8 bytes of one code point (Python's strict `utf-8` codec: a surrogate cannot be encoded) -/
+def utf8Cp (c : Nat) : Option (List Nat) :=
+  if c < 0x80 then some [c]
+  else if c < 0x800 then some [0xC0 + c / 64, 0x80 + c % 64]
+  else if 0xD800 ≤ c ∧ c ≤ 0xDFFF then none
+  else if c < 0x10000 then some [0xE0 + c / 4096, 0x80 + c / 64 % 64, 0x80 + c % 64]
+  else if c < 0x110000 then some [0xF0 + c / 262144, 0x80 + c / 4096 % 64, 0x80 + c / 64 % 64, 0x80 + c % 64]
+  else none
+
+/-- `s.encode('utf-8')`; `none` = UnicodeEncodeError -/
+def utf8Encode : PyStr → Option (List Nat)
+  | [] => some []
+  | c :: s =>
+    match utf8Cp c, utf8Encode s with
+    | some b, some r => some (b ++ r)
+    | _, _ => none
+
 /-! ### `svg_escape` (graphs.py) -/
 
 /-- one iteration of the loop of `svg_escape` -/
